@@ -6,6 +6,7 @@ import numpy as np
 from common import Driver, Report, ser_result, wf_failure, lean_obligations, err_class
 from core import Family, Gen, tok_expr, enumerate_diagrams, small_signature
 from semantics import IntFunctor, wire_labels
+import recvlib
 
 PROP = "C05"
 
@@ -41,65 +42,284 @@ def relabel(consumed, outputs, perm):
     return [tuple(f(x) for x in c) for c in consumed], tuple(f(x) for x in outputs)
 
 
-def check_one(rep, fam, fams, e, d, i, j, left, model, rng):
-    line_case = dict(family=fam, expr=repr(e), i=i, j=j, left=left)
+def same_boxes(xs, ys):
+    """The same boxes in the same order: the very same objects, or equal for the library's `==`
+    (falling back to the (name, z) token where `==` itself raises, e.g. on array data)."""
+    xs, ys = list(xs), list(ys)
+    if len(xs) != len(ys):
+        return False
+    for a, b in zip(xs, ys):
+        if a is b:
+            continue
+        try:
+            if bool(a == b):
+                continue
+            return False
+        except Exception:
+            if recvlib.rser_box(a) != recvlib.rser_box(b):
+                return False
+    return True
+
+
+def wide(F, d, limit=128):
+    """Largest dimension of a layer boundary of d under F exceeds `limit`."""
+    return max([F.tydim(d.dom)] + [F.tydim(l.cod) for l in d.layers.boxes]) > limit
+
+
+def check_move(rep, stream, case, d, i, j, left, model, rng, ser=None, free=False, ev=None,
+               evcache=None, back=True):
+    """One interchange request on the real diagram `d`: correspondence with the model's answer and
+    the property's own predicate.  `ser` = serialiser of the real result (answer-line format),
+    `free` = evaluate under recvlib.FreeIntFunctor instead of semantics.IntFunctor (any box class),
+    `ev` = the class's own evaluation (tensor eval / cartesian call), `back` = also move back."""
     value = [None]
+    exc = [None]
 
     def thunk():
         value[0] = d.interchange(i, j, left=left)
         return value[0]
-    real = ser_result(thunk)
-    if real != model:
-        rep.disagree("interchange", line_case, real, model)
+    if ser is None:
+        real = ser_result(thunk)
+    else:
+        try:
+            real = "ok " + ser(thunk())
+        except Exception as e:  # noqa: the class is the observation
+            real, exc[0] = "err " + err_class(e), e
     sim = simulate(d, i, j, left)
     rep.count("outcome:" + (real.split(" ")[0] if real.startswith("ok") else real.split(" ")[1]))
     r = value[0]
-    if r is None:
-        got = real.split(" ")[1]
-        if sim[0] == "ok":
-            rep.fail("refused_but_free", line_case, "raised %s although every box on the way is free" % got)
+    n = len(d.boxes)
+    got = None if real.startswith("ok") else real.split(" ")[1]
+    # a formal sum answers len() with its number of terms, and interchange checks its indices against
+    # len(): finding F45, reported under its own narrow signature (i == j on a Sum whose number of
+    # terms is not 1: the answer is `self` for an index beyond its single box / IndexError for box 0)
+    if hasattr(d, "terms") and len(d) != n and i == j and (
+            (sim[0] == "index" and r is d) or (sim[0] == "ok" and got == "index")):
+        rep.fail("sum_index_range_by_terms", case,
+                 "a Sum of %d terms (one box): interchange(%d, %d) %s" % (
+                     len(d), i, j, "returns the sum" if r is d else "raises IndexError"))
+        return False
+    if real != model:
+        rep.disagree(stream, case, real, model)
+    if r is None or got is not None:
+        detail = "" if exc[0] is None else " (%s: %s)" % (type(exc[0]).__name__, str(exc[0])[:160])
+        if r is not None:
+            rep.fail("result_unreadable", case, "the returned object cannot be read as a diagram" + detail)
+        elif sim[0] == "ok":
+            if got in ("interchanger", "index"):
+                rep.fail("refused_but_free", case, "raised %s although every box on the way is free" % got)
+            else:
+                rep.fail("legal_move_raises", case, "a legal move raised %s%s" % (got, detail))
         elif sim[0] != got:
-            rep.fail("wrong_error_class", line_case, "raised %s, expected %s" % (got, sim[0]))
+            rep.fail("wrong_error_class", case, "raised %s, expected %s%s" % (got, sim[0], detail))
         return False
     if sim[0] != "ok":
-        rep.fail("accepted_but_" + sim[0], line_case, "returned a diagram, expected %s error" % sim[0])
+        rep.fail("accepted_but_" + sim[0], case, "returned a diagram, expected %s error" % sim[0])
         return True
-    why = wf_failure(r)
+    wf = recvlib.wf_failure_any if free else wf_failure
+    why = wf(r)
     if why:
-        rep.fail("illtyped_result", line_case, why)
+        rep.fail("illtyped_result", case, why)
         return True
     if r.dom != d.dom or r.cod != d.cod:
-        rep.fail("dom_cod_changed", line_case, "dom/cod differ")
-    n = len(d.boxes)
+        rep.fail("dom_cod_changed", case, "dom/cod differ")
     order = list(range(n))
     order.insert(j, order.pop(i))                  # new position p holds old box order[p]
-    if [d.boxes[k] for k in order] != list(r.boxes):
-        rep.fail("boxes_not_moved", line_case, "boxes are not the input's with box i moved to j")
+    c0, out0 = wire_labels(d)
+    if not same_boxes([d.boxes[k] for k in order], r.boxes):
+        rep.fail("boxes_not_moved", case, "boxes are not the input's with box i moved to j")
     else:
         perm = {old: new for new, old in enumerate(order)}
-        c0, out0 = wire_labels(d)
         c1, out1 = wire_labels(r)
         c0r, out0r = relabel(c0, out0, perm)
         expect = [None] * n
         for old, cons in enumerate(c0r):
             expect[perm[old]] = cons
         if expect != c1 or out0r != out1:
-            rep.fail("attachment_changed", line_case, "some box is attached to different wires")
-    F = IntFunctor(random.Random(rng.getrandbits(32)))
-    if not np.array_equal(F.eval(d), F.eval(r)):
-        rep.fail("semantics_changed", line_case, "evaluation under a random integer functor differs")
-    if list(r.boxes) != list(sim[1]) or list(r.offsets) != list(sim[2]):
-        rep.fail("offsets_unexpected", line_case, "offsets differ from the documented exchange rule")
+            rep.fail("attachment_changed", case, "some box is attached to different wires")
+    frng = random.Random(rng.getrandbits(32))
+    F = recvlib.FreeIntFunctor(frng) if free else IntFunctor(frng)
+    try:
+        if free and wide(F, d):
+            rep.count("free_functor_skipped_wide")
+        elif not np.array_equal(F.eval(d), F.eval(r)):
+            rep.fail("semantics_changed", case, "evaluation under a random integer functor differs")
+    except Exception as e:
+        rep.fail("semantics_not_evaluable", case, "integer functor on the result: %r" % (e,))
+    if list(r.offsets) != list(sim[2]) or not same_boxes(r.boxes, sim[1]):
+        rep.fail("offsets_unexpected", case, "offsets differ from the documented exchange rule")
+    # the class's own evaluation (tensor contraction / python call) of receiver and result
+    if ev is not None and evcache is not None and i != j and evcache.get("budget", 1) > 0:
+        if "budget" in evcache:
+            evcache["budget"] -= 1
+        if "d" not in evcache:
+            try:
+                evcache["d"] = ev(d)
+            except Exception:
+                evcache["d"] = None
+                rep.count("class_eval_unavailable")
+        if evcache["d"] is not None:
+            try:
+                if not recvlib.same_value(evcache["d"], ev(r)):
+                    rep.fail("class_evaluation_changed", case, "the class's own evaluation of the result "
+                             "differs from the receiver's")
+                rep.count("class_eval_compared")
+            except Exception as e:
+                rep.fail("result_not_evaluable", case, "the receiver evaluates, the result raises %r" % (e,))
+    # moving the box back.  After an ADJACENT move the neighbour is still unwired to the box, so the
+    # opposite move is legal for both preferences, gives back the receiver's boxes and attachment,
+    # and one of the two preferences undoes the offset bookkeeping exactly.  After a longer move a
+    # single preference may take another planar route past boxes without inputs or outputs and be
+    # refused half way (an interchanger error is then not a failure), but whatever comes back must
+    # again have the receiver's boxes and attachment; any other exception is a failure.
+    if back and i != j:
+        exact = False
+        adjacent = abs(i - j) == 1
+        for l2 in (False, True):
+            try:
+                b = r.interchange(j, i, left=l2)
+            except Exception as e:
+                if not adjacent and err_class(e) == "interchanger":
+                    rep.count("move_back_other_route_refused")
+                    continue
+                rep.fail("move_back_raises", case, "interchange(%d, %d, left=%s) of the result raised %s: %s"
+                         % (j, i, l2, type(e).__name__, str(e)[:160]))
+                continue
+            try:
+                if not same_boxes(d.boxes, b.boxes) or b.dom != d.dom or b.cod != d.cod \
+                        or wire_labels(b) != (c0, out0) or wf(b):
+                    rep.fail("move_back_differs", case, "moving the box back (left=%s) does not restore "
+                             "the boxes and their attachment" % l2)
+                exact = exact or list(b.offsets) == list(d.offsets)
+            except Exception as e:
+                rep.fail("move_back_unreadable", case, repr(e))
+        if adjacent and not exact:
+            rep.fail("move_back_not_exact", case, "neither preference restores the receiver's offsets "
+                     "after an adjacent move")
+        rep.count("moved_back")
     return True
+
+
+def check_one(rep, fam, fams, e, d, i, j, left, model, rng):
+    line_case = dict(family=fam, expr=repr(e), i=i, j=j, left=left)
+    # the move back is checked on every request in the quick tier, on a third in the thorough tier
+    back = rep.tier == "quick" or rng.random() < 0.34
+    return check_move(rep, "interchange", line_case, d, i, j, left, model, rng, back=back)
+
+
+def triples_of(n, rng, tier):
+    """(i, j, left) requests for a receiver of n boxes: all of [-1, n]^2 x both preferences when
+    small (quick: n <= 4, thorough: n <= 9), otherwise every adjacent in-range pair, the long moves
+    from both ends and a random rest."""
+    full = [(i, j, l) for i in range(-1, n + 1) for j in range(-1, n + 1) for l in (False, True)]
+    if n <= (4 if tier == "quick" else 9):
+        return full
+    adj = [(i, i + s, l) for i in range(n) for s in (-1, 1) if 0 <= i + s < n for l in (False, True)]
+    if tier == "quick" and len(adj) > 24:
+        adj = rng.sample(adj, 24)
+    rest = rng.sample(full, 16 if tier == "quick" else 120)
+    ends = [(0, n - 1, False), (n - 1, 0, True), (0, n, False), (-1, 0, False)]
+    seen, out = set(), []
+    for t in adj + ends + rest:
+        if t not in seen:
+            seen.add(t)
+            out.append(t)
+    return out
+
+
+def receivers_stream(rep, drv, rng, tier):
+    """Interchange on receivers of every diagram class and of subclasses with their own constructor
+    (recvlib), all through the same model: the request is the receiver's (name, z) serialisation."""
+    rcs, skipped = recvlib.receivers(random.Random(rng.getrandbits(64)), tier)
+    rep.extra["receivers_not_constructible"] = [list(s) for s in skipped[:10]]
+    for rc in rcs:
+        d = rc.d
+        try:
+            n = len(d.boxes)
+            spec = recvlib.rspec_diagram(d)
+            before = recvlib.rser_diagram(d)
+        except Exception as e:
+            rep.fail("receiver_unreadable", dict(receiver=rc.label), repr(e))
+            continue
+        cls = type(d).__module__.replace("discopy.", "") + "." + type(d).__qualname__
+        rep.count("recv_region:" + rc.region)
+        rep.count("recv_family:" + rc.family)
+        rep.count("recv_class:" + cls)
+        rep.count("recv_boxes:%s" % (n if n < 10 else "10+"))
+        triples = triples_of(n, rng, tier)
+        if hasattr(d, "terms"):            # a formal sum: also the indices its len() admits
+            m = max(n, len(d))
+            triples = [(i, j, l) for i in range(-1, m + 1) for j in range(-1, m + 1) for l in (False, True)]
+        rng.shuffle(triples)               # the class evaluation is spent on the first legal moves
+        lines = ["eval " + tok_expr(("interchange", spec, i, j, l)) for i, j, l in triples]
+        answers = drv.ask_many(lines)
+        evcache = {"budget": 5 if tier == "quick" else 16}
+        ev = rc.ev if recvlib.max_width(d) <= 6 else None
+        good = []
+        for (i, j, l), line, model in zip(triples, lines, answers):
+            case = dict(stream="receivers", receiver=rc.label, cls=cls, region=rc.region, i=i, j=j,
+                        left=l, repr=repr(d)[:400], request=line[:1500])
+            ok = check_move(rep, "receivers", case, d, i, j, l, model, rng, ser=recvlib.rser_diagram,
+                            free=True, ev=ev, evcache=evcache)
+            nontrivial = n >= 2 and i != j and 0 <= i < n and 0 <= j < n
+            rep.case(cls + " " + line, nontrivial)
+            if nontrivial:
+                rep.count("recv_moves:" + rc.region)
+                if ok:
+                    rep.count("recv_moved:" + rc.region)
+            if ok and i != j:
+                good.append((i, j, l))
+        if rc.region != "one-box" and len(rep.extra.setdefault("receiver_samples", [])) < 6:
+            rep.extra["receiver_samples"].append(dict(receiver=rc.label, cls=cls, boxes=n,
+                                                      requests=len(triples)))
+        # histories: a sequence of moves starting from the receiver (each result is the next receiver)
+        if good and n >= 3:
+            cur = d
+            for (i, j, l) in [rng.choice(good)] + [
+                    (rng.randrange(n), rng.randrange(n), rng.random() < 0.5) for _ in range(2)]:
+                try:
+                    line = "eval " + tok_expr(("interchange", recvlib.rspec_diagram(cur), i, j, l))
+                except Exception as e:
+                    rep.fail("receiver_unreadable", dict(receiver=rc.label, step=(i, j, l)), repr(e))
+                    break
+                model = drv.ask(line)
+                case = dict(stream="receivers", receiver="a result of moves on " + rc.label, cls=cls,
+                            i=i, j=j, left=l, repr=repr(cur)[:400], request=line[:1500])
+                ok = check_move(rep, "receivers", case, cur, i, j, l, model, rng,
+                                ser=recvlib.rser_diagram, free=True, ev=ev, evcache={"budget": 1})
+                rep.case(cls + " " + line, i != j)
+                rep.count("recv_sequence_step")
+                if not ok:
+                    break
+                cur = cur.interchange(i, j, left=l)
+        # the receiver is a value: it must be what it was after all these calls
+        try:
+            if recvlib.rser_diagram(d) != before:
+                rep.fail("receiver_mutated", dict(receiver=rc.label, cls=cls),
+                         "the receiver changed under interchange calls")
+        except Exception as e:
+            rep.fail("receiver_mutated", dict(receiver=rc.label, cls=cls), repr(e))
 
 
 def run(tier, seed, replay=None):
     rep = Report(PROP, tier, seed)
     rep.rule = ("random well-typed monoidal/rigid diagrams (0-8 boxes, incl. scalars, states, effects, "
                 "swaps, cups, caps); (i, j, left) triples: quick = 10 random per diagram incl. out of "
-                "range, thorough = all; plus sequences of 2-3 interchanges; non-trivial = i != j in "
-                "range on a diagram of >= 2 boxes; distinct by request line")
-    rep.partial = []
+                "range, thorough = all; plus sequences of 2-3 interchanges; stream `receivers`: diagrams "
+                "of every class (monoidal, rigid, pregroup, biclosed, cartesian, tensor, circuit, zx) as "
+                "receivers - library subclasses with their own constructor (IQPansatz, cartesian Copy / "
+                "Discard / Swap / Id), user subclasses Own_<class> built the same way, plain diagrams "
+                "grown with >> and @ / rebuilt by the constructor / daggered / sliced / tensored, helper "
+                "outputs (swap, permutation, cups, caps, spiders, ansatz functions), functor results, "
+                "one-box receivers (every box class, Sum, Bubble, Id) - with all (i, j, left) in [-1, n] "
+                "(sampled above 4 / 9 boxes) and 3-step histories; non-trivial = i != j in range on a "
+                "diagram of >= 2 boxes; distinct by receiver class + request line")
+    rep.partial = ["the class of the receiver (self.upgrade, subclass constructors) is outside the Lean "
+                   "model: the receivers stream compares the five fields of the real result with the "
+                   "class-blind model and applies the property's oracle (incl. the class's own "
+                   "evaluation: tensor/circuit eval, cartesian call; zx/biclosed/grammar receivers are "
+                   "evaluated under the free integer functor only)",
+                   "taking a move back is a theorem (and an oracle clause) for adjacent moves only"]
     rep.lean = lean_obligations(PROP, thorough=(tier == "thorough"))
     n_diagrams = 120 if tier == "quick" else 2500
     rng = random.Random(seed)
@@ -141,6 +361,8 @@ def run(tier, seed, replay=None):
                         break
                     cur = cur.interchange(i, j, left=l)
                     seq = ("interchange", seq, i, j, l)
+        # ---- receivers of every diagram class / of subclasses with their own constructor
+        receivers_stream(rep, drv, rng, tier)
         # ---- exhaustive small scope: ALL diagrams over a fixed 8-box signature (scalar, state,
         # effect, unary, 1->2, 2->1, daggered endo, swap), domains (), a, a@b, width <= 4,
         # up to 2 (quick) / 3 (thorough) boxes, with ALL (i, j, left) triples incl. out of range
